@@ -17,7 +17,7 @@ N == Len(Log)
 TInit == l = 1 /\ mon = MonInit /\ sid = "none" /\ drift = "" /\ p = Start /\ ev = [e |-> "none"]
 
 (* events the system model has no step for *)
-Unmodelled(e) == \/ e.e \in {"Ph", "Touch"}
+Unmodelled(e) == \/ e.e \in {"Ph", "Touch", "Peer"}
                  \/ e.e = "End" /\ e.why \notin {"ok", "crash"}
 
 TNext ==
